@@ -205,6 +205,30 @@ pub fn expected_one(registrations: usize) {
     for op in OPS { if *op == "register_tags" { continue; } for (i, b) in es.iter().enumerate() { println!("{} {} {:016x}", op, i, fnv(&run_op_bytes(op, b))); } }
 }
 
+/// child: run alone, after one registration - every door of the formatting API gives the text of its canonical form
+/// (`format` = `format_opt` with the global context, `format_flat` = the flat flag, `tree_format*` = `tree_format_with_target_opt`
+/// with no target, `hex` = `hex_opt` annotated).  Prints one line per disagreement.
+pub fn variants_one() {
+    use bc_envelope::{with_format_context, FormatContext};
+    bc_envelope::register_tags();
+    for (i, b) in sample_envelopes_sendable().iter().enumerate() {
+        let e = Envelope::from_tagged_cbor_data(b.clone()).unwrap();
+        let mut check = |name: &str, a: String, bb: String| { if a != bb { println!("variant-differs {} sample {}: {:?} vs {:?}", name, i, &a[..a.len().min(80)], &bb[..bb.len().min(80)]); } };
+        check("format_opt", e.format(), with_format_context!(|ctx: &FormatContext| e.format_opt(Some(ctx))));
+        check("format_flat", e.format_flat(), with_format_context!(|ctx: &FormatContext| { let f = ctx.clone().set_flat(true); assert!(f.is_flat() && !ctx.is_flat()); e.format_opt(Some(&f)) }));
+        for hide in [false, true] {
+            check("tree_format_opt", e.tree_format(hide), with_format_context!(|ctx: &FormatContext| e.tree_format_opt(hide, Some(ctx))));
+            check("tree_format_with_target", e.tree_format(hide), e.tree_format_with_target(hide, &std::collections::HashSet::new()));
+            check("tree_format_with_target_opt", e.tree_format(hide), with_format_context!(|ctx: &FormatContext| e.tree_format_with_target_opt(hide, &std::collections::HashSet::new(), Some(ctx))));
+        }
+        check("hex_opt", e.hex(), with_format_context!(|ctx: &FormatContext| e.hex_opt(true, Some(ctx))));
+        // a context of the caller's own, registered the same way, is usable and flat by request only
+        let mut own = FormatContext::default(); bc_envelope::register_tags_in(&mut own);
+        let _ = e.format_opt(Some(&own)); let _ = e.tree_format_opt(false, Some(&own)); let _ = e.hex_opt(true, Some(&own)); let _ = e.format_opt(None); let _ = e.hex_opt(false, None);
+    }
+    println!("variants-done");
+}
+
 fn spawn_self(args: &[String], timeout: Duration) -> Result<String, String> {
     let exe = std::env::current_exe().map_err(|e| e.to_string())?;
     let mut child = Command::new(exe).args(args).stdout(Stdio::piped()).stderr(Stdio::null()).spawn().map_err(|e| e.to_string())?;
@@ -240,6 +264,11 @@ pub fn campaign(outdir: &str, seed: u64, thorough: bool) {
     let (mut runs, mut calls_checked, mut mismatches, mut timeouts, mut panics) = (0u64, 0u64, vec![], vec![], vec![]);
     let mut samples = vec![];
     if before.is_empty() || after.is_empty() { panics.push("could not compute the sequential reference tables".to_string()); }
+    match spawn_self(&["c20-variants-one".into()], Duration::from_secs(60)) {
+        Ok(out) => { if !out.lines().any(|l| l == "variants-done") { panics.push("the formatting-variants run did not finish".to_string()); }
+                     for l in out.lines().filter(|l| l.starts_with("variant-differs")) { mismatches.push(format!("run alone: {}", l)); } }
+        Err(e) => timeouts.push(format!("formatting variants: {}", e)),
+    }
     for (n, t) in &again {
         let mut diff: Vec<&String> = t.symmetric_difference(&after).collect(); diff.sort();
         if let Some(d) = diff.first() { mismatches.push(format!("run alone: after {} calls of register_tags the text differs from the text after one call: {} ({} table lines differ)", n, d, diff.len())); }
